@@ -431,7 +431,15 @@ def summarise(prop, tier, R, results, bounded, wall, write=True, verbose=False):
         "violations": len(viol_docs),
     }
     evidence["coverage"]["failed_obligations"] = sorted(set(rec["id"] for _, rec in violations))[:200]
-    if n_obl == 0 and bounded:
+    claimed = None
+    try:
+        with open(os.path.join(ROOT, "MANIFEST.json")) as mf:
+            for c_ in json.load(mf).get("checks", []):
+                if c_.get("property_id") == prop:
+                    claimed = c_["level_claimed"]["category"]
+    except Exception:
+        pass
+    if (n_obl == 0 or claimed == "exploration") and bounded:
         # nothing deductive for this property: evidence is that of a bounded exploration, labelled as such
         ev_cases = sum(int(b.get("cases", 0) or 0) for b in bounded)
         ev_distinct = sum(int(b.get("distinct_nontrivial", b.get("cases", 0)) or 0) for b in bounded)
